@@ -133,6 +133,16 @@ def run_case(case, ctx):
             steps = res['obs'].get('steps') or []
             eps_steps = bool(steps) and max(float(np.max(np.abs(s_))) for s_ in steps) < 1e-10
             floor = m.floor if m.floor is not None else 0.0
+            # is the moment system of this (method, n, order, step ratio) numerically singular (the precondition C06
+            # states)?  Then the delivered rule cannot have its formal order; what remains promised is the plain formula.
+            singular, cond2 = False, None
+            try:
+                from vf.props.c06 import moment_system
+                hs = sorted({float(np.abs(np.asarray(s_).ravel()[e if np.size(s_) > 1 else 0])) for s_ in steps}, reverse=True)
+                if len(hs) >= 2 and hs[1] > 0:
+                    cond2, _T, singular = moment_system(method, n, order, hs[0] / hs[1])
+            except Exception:
+                pass
             ctx.reject('outside_accuracy_envelope', observed=complex(v), expected=complex(m.exact),
                        detail=dict(program=prog, x=x_e, err=m.err, E=m.E, S=m.S, ratio=ratio, A=t, W=m.W, nsteps=m.nsteps,
                                    rho_valid=m.rho_valid, est=est_e, final_step=fs_e, P=m.P, lam=m.lam,
@@ -143,7 +153,9 @@ def run_case(case, ctx):
                        chosen_step_beyond_validity_radius=bool(m.chosen_beyond_validity),
                        error_explained_by_rounding_at_chosen_step=bool(floor > 0 and m.err <= 10 * floor),
                        majority_of_table_rows_collapsed=bool(m.frac_collapsed >= 0.5),
-                       fraction_of_table_rows_collapsed=round(m.frac_collapsed, 3))
+                       fraction_of_table_rows_collapsed=round(m.frac_collapsed, 3),
+                       moment_system_numerically_singular=bool(singular),
+                       within_envelope_of_the_plain_formula=bool(m.err <= t * m.E_low))
             return
     if len(ctx.samples) < 4:
         ctx.sample(dict(program=prog, x=case['x'], method=method, n=n, order=order, step=case['step'],
@@ -160,6 +172,8 @@ def classify(wit):
         return 'selector-picked-steps-beyond-validity-radius'
     if f.get('error_explained_by_rounding_at_chosen_step'):
         return 'selector-picked-rounding-dominated-step'
+    if f.get('moment_system_numerically_singular') and f.get('within_envelope_of_the_plain_formula'):
+        return 'rule-order-lost-in-ill-conditioned-moment-system'
     return None
 
 
